@@ -47,10 +47,18 @@ EncResp(version, status, entries, body) == Preamble(version) \o Frame(RespHeader
 (* Decoder.  Results: [ok |-> TRUE, ...fields] or [ok |-> FALSE, why |-> class] *)
 
 Err(why) == [ok |-> FALSE, why |-> why]
-RECURSIVE FromLE(_)
-FromLE(b) == IF b = <<>> THEN 0 ELSE b[1] + 256 * FromLE(Tail(b))
-RECURSIVE FromBE(_)
-FromBE(b) == IF b = <<>> THEN 0 ELSE FromBE(SubSeq(b, 1, Len(b) - 1)) * 256 + b[Len(b)]
+RECURSIVE FromLE0(_)
+FromLE0(b) == IF b = <<>> THEN 0 ELSE b[1] + 256 * FromLE0(Tail(b))
+(* lengths on the wire are 64-bit; anything that does not fit 31 bits is "larger than any message"  *)
+(* (TLC's integers are 32-bit: the decoder must stay total on arbitrary bytes)                       *)
+Huge == 2147483647
+FromLE(b) ==
+  IF Len(b) <= 3 THEN FromLE0(b)
+  ELSE IF (\E i \in 5..Len(b) : b[i] # 0) \/ b[4] >= 128 THEN Huge
+  ELSE FromLE0(SubSeq(b, 1, 4))
+RECURSIVE FromBE0(_)
+FromBE0(b) == IF b = <<>> THEN 0 ELSE FromBE0(SubSeq(b, 1, Len(b) - 1)) * 256 + b[Len(b)]
+FromBE(b) == IF Len(b) = 4 /\ b[1] >= 128 THEN Huge ELSE FromBE0(b)
 Drop(b, n) == SubSeq(b, n + 1, Len(b))
 Take(b, n) == SubSeq(b, 1, n)
 
